@@ -330,3 +330,254 @@ Proof.
   assert (Hincl : incl n (alg_vecs A)) by (intros g Hg; apply (name_bin_in _ (wf_vecs_nodup A Hwf) n b Hb g Hg)).
   pose proof (NoDup_incl_length Hnd Hincl) as Hlen. rewrite (wf_vecs_len A Hwf) in Hlen. lia.
 Qed.
+
+(* ====================================================================================== *)
+(** * 3. The accessors *)
+
+Section Access.
+  Variable R : Type.
+  Variables (rO rI : R) (radd rmul rsub : R -> R -> R) (ropp : R -> R).
+  Hypothesis Rth : ring_theory rO rI radd rmul rsub ropp (@eq R).
+  Add Ring Rring15 : Rth.
+  Local Notation O := (mkOps R radd rsub rmul ropp rO rI).
+  Variable A : alg.
+  Hypothesis Hwf : wf_alg A = true.
+  Local Notation L := (alg_len A).
+
+  (* the sign carried by a spelling *)
+  Definition sg (b : bool) (v : R) : R := if b then ropp v else v.
+
+  Lemma sg_zero b : sg b rO = rO.
+  Proof. destruct b; cbn [sg]; [ring | reflexivity]. Qed.
+
+  Lemma sg_invol b v : sg b (sg b v) = v.
+  Proof. destruct b; cbn [sg]; [ring | reflexivity]. Qed.
+
+  Lemma c_notin K (m : mv R) : ~ In K (keys m) -> coeff O K m = rO.
+  Proof.
+    induction m as [|[k v] r IH]; intros Hn; [reflexivity|]. cbn [coeff].
+    destruct (Z.eqb_spec k K) as [->|Hne]; [exfalso; apply Hn; left; reflexivity|].
+    apply IH. intros H. apply Hn. right. exact H.
+  Qed.
+
+  Lemma c_in K v (m : mv R) : NoDup (keys m) -> In (K, v) m -> coeff O K m = v.
+  Proof.
+    induction m as [|[k w] r IH]; intros Hnd Hin; [destruct Hin|].
+    cbn [keys map fst] in Hnd. inversion Hnd as [|? ? Hk Hr]; subst. cbn [coeff].
+    destruct Hin as [E|Hin].
+    - injection E as -> ->. rewrite Z.eqb_refl. reflexivity.
+    - destruct (Z.eqb_spec k K) as [->|Hne].
+      + exfalso. apply Hk. change (In (fst (K, v)) (map fst r)). apply in_map. exact Hin.
+      + apply IH; assumption.
+  Qed.
+
+  Lemma c_in_keys K (m : mv R) : In K (keys m) -> In (K, coeff O K m) m.
+  Proof.
+    induction m as [|[k v] r IH]; intros Hin; [destruct Hin|]. cbn [coeff].
+    destruct (Z.eqb_spec k K) as [->|Hne]; [left; reflexivity|].
+    right. apply IH. destruct Hin as [E|Hin]; [cbn [fst] in E; congruence | exact Hin].
+  Qed.
+
+  (* keys().index(K) and _values[idx] against the first-match read-out *)
+  Lemma coeff_zindex (m : mv R) K :
+    match zindex K (keys m) with
+    | None => ~ In K (keys m)
+    | Some idx => nth_error (map snd m) idx = Some (coeff O K m) /\ In K (keys m)
+    end.
+  Proof.
+    induction m as [|[k v] r IH]; [intros []|]. cbn [keys map fst snd zindex coeff].
+    destruct (Z.eqb_spec k K) as [->|Hne].
+    - split; [reflexivity | left; reflexivity].
+    - fold (keys r). destruct (zindex K (keys r)) as [idx|]; cbn [option_map].
+      + destruct IH as [H1 H2]. split; [exact H1 | right; exact H2].
+      + intros [E|H]; [congruence | exact (IH H)].
+  Qed.
+
+  (* ---------------- __getattr__ ---------------- *)
+
+  Theorem getattr_spells (m : mv R) n K c : spells A n K -> bin2canon A K = Some c ->
+    getattr O A m (SName n) = Ok (sg (sp_odd n c) (coeff O K m)).
+  Proof.
+    intros Hs Hc. destruct (blade2canon_spells A Hwf n K Hs) as (c' & sw & Hc' & Hcb & Hp & Hb & Hpar).
+    assert (c' = c) by congruence. subst c'.
+    unfold getattr. rewrite Hb, Hcb. pose proof (coeff_zindex m K) as Hz.
+    destruct (zindex K (keys m)) as [idx|].
+    - destruct Hz as [Hn _]. rewrite Hn. rewrite <- Z.negb_odd, Hpar. cbn [o_neg].
+      destruct (sp_odd n c); reflexivity.
+    - rewrite (c_notin K m Hz), sg_zero. reflexivity.
+  Qed.
+
+  (* the parity rule: any permutation n of the table's name c of blade K reads the coefficient of K
+     times the parity of the permutation; the table's own spelling reads the coefficient itself *)
+  Theorem getattr_parity (m : mv R) K c n : bin2canon A K = Some c -> Permutation n c ->
+    getattr O A m (SName n) = Ok (sg (sp_odd n c) (coeff O K m)).
+  Proof. intros Hc Hp. apply getattr_spells; [apply (perm_spells A Hwf n K c Hc Hp) | exact Hc]. Qed.
+
+  Corollary getattr_canonical (m : mv R) K c : bin2canon A K = Some c ->
+    getattr O A m (SName c) = Ok (coeff O K m).
+  Proof.
+    intros Hc. rewrite (getattr_parity m K c c Hc (Permutation_refl c)). unfold sp_odd.
+    rewrite xorb_nilpotent. reflexivity.
+  Qed.
+
+  (* a transposition really flips the sign (non-vacuity of the parity rule) *)
+  Corollary getattr_swap (m : mv R) K p x y r : bin2canon A K = Some (p ++ x :: y :: r) ->
+    getattr O A m (SName (p ++ y :: x :: r)) = Ok (ropp (coeff O K m)).
+  Proof.
+    intros Hc. assert (Hxy : x <> y).
+    { pose proof (bin2canon_NoDup A Hwf K _ Hc) as Hnd. apply NoDup_remove_2 in Hnd.
+      intros ->. apply Hnd. apply in_or_app. right. left. reflexivity. }
+    rewrite (getattr_parity m K (p ++ x :: y :: r) (p ++ y :: x :: r) Hc).
+    - unfold sp_odd. rewrite (inv2_swap_adjacent p y x r) by congruence.
+      destruct (inv2 (p ++ x :: y :: r)); reflexivity.
+    - apply Permutation_app_head. apply perm_swap.
+  Qed.
+
+  (* absent blades read 0 whatever the spelling; names that are no blade read 0; other attribute
+     names raise AttributeError *)
+  Theorem absent_is_zero (m : mv R) :
+    (forall K c n, bin2canon A K = Some c -> Permutation n c -> ~ In K (keys m) ->
+       getattr O A m (SName n) = Ok rO)
+    /\ (forall n, (exists g, In g n /\ ~ In g (alg_vecs A)) -> getattr O A m (SName n) = Ok rO)
+    /\ getattr O A m SOther = Err EAttr.
+  Proof.
+    split; [|split].
+    - intros K c n Hc Hp Hn. rewrite (getattr_parity m K c n Hc Hp), (c_notin K m Hn), sg_zero. reflexivity.
+    - intros n Hn. unfold getattr. rewrite (blade2canon_nonblade A Hwf n Hn). reflexivity.
+    - reflexivity.
+  Qed.
+
+  (* ---------------- __contains__ ---------------- *)
+  Theorem contains_iff (m : mv R) :
+    (forall k, contains A m (KInt k) = Ok (zin k (keys m)))
+    /\ (forall K c, bin2canon A K = Some c -> contains A m (KName c) = Ok (zin K (keys m)))
+    /\ (forall n, canon2bin A n = None -> contains A m (KName n) = Err EKey)
+    /\ (forall K, zin K (keys m) = true <-> In K (keys m)).
+  Proof.
+    split; [|split; [|split]].
+    - reflexivity.
+    - intros K c Hc. unfold contains.
+      rewrite (entry_canon2bin A Hwf c K (bin2canon_entry A K c Hc)). reflexivity.
+    - intros n Hn. unfold contains. rewrite Hn. reflexivity.
+    - intros K. apply zin_true_iff.
+  Qed.
+
+  (* ---------------- items ---------------- *)
+  Theorem items_exact (m : mv R) :
+    mv_items m = combine (keys m) (map snd m)
+    /\ (NoDup (keys m) -> forall K v, In (K, v) (mv_items m) <-> In K (keys m) /\ coeff O K m = v).
+  Proof.
+    split.
+    - unfold mv_items, keys. induction m as [|[k v] r IH]; [reflexivity|]. cbn [map combine fst snd]. congruence.
+    - intros Hnd K v. unfold mv_items. split.
+      + intros Hin. split; [change K with (fst (K, v)); apply in_map; exact Hin | apply c_in; assumption].
+      + intros [Hk <-]. apply c_in_keys. exact Hk.
+  Qed.
+
+  (* ---------------- asfullmv ---------------- *)
+  Lemma coeff_tabulate (f : Z -> R) ks K :
+    coeff O K (map (fun k => (k, f k)) ks) = if zin K ks then f K else rO.
+  Proof.
+    induction ks as [|k ks IH]; [reflexivity|]. cbn [map coeff]. rewrite zin_cons, (Z.eqb_sym K k).
+    destruct (Z.eqb_spec k K) as [->|Hne]; [reflexivity | exact IH].
+  Qed.
+
+  Definition full_keys (canonical : bool) : list Z :=
+    if canonical then canon_keys A else Alg.zrange (2 ^ a_d A).
+
+  Lemma full_keys_range canonical K : In K (full_keys canonical) <-> 0 <= K < L.
+  Proof.
+    destruct canonical; cbn [full_keys].
+    - apply (In_canon_keys A Hwf).
+    - rewrite In_zrange, <- alg_len_nat. reflexivity.
+  Qed.
+
+  Theorem asfullmv_coeffs canonical (m : mv R) :
+    asfullmv O A canonical m = Ok (map (fun k => (k, coeff O k m)) (full_keys canonical))
+    /\ (forall f, asfullmv O A canonical m = Ok f ->
+          keys f = full_keys canonical
+          /\ (forall K, 0 <= K < L -> coeff O K f = coeff O K m)
+          /\ (forall K, ~ (0 <= K < L) -> coeff O K f = rO)).
+  Proof.
+    assert (H1 : asfullmv O A canonical m = Ok (map (fun k => (k, coeff O k m)) (full_keys canonical))).
+    { unfold asfullmv.
+      assert (Hks : (if canonical then indices_for_grades A (all_grades A) else Ok (Alg.zrange (2 ^ a_d A)))
+                    = Ok (full_keys canonical)).
+      { destruct canonical; [apply (full_grades_canon A Hwf) | reflexivity]. }
+      rewrite Hks. cbn [bind]. apply mapM_res_ok. intros k Hk. apply full_keys_range in Hk.
+      destruct (bin2canon_total A Hwf k Hk) as (n & Hn & _ & _). rewrite Hn. cbn [of_opt bind].
+      rewrite (getattr_canonical m k n Hn). reflexivity. }
+    split; [exact H1|]. intros f Hf. rewrite H1 in Hf. injection Hf as <-. split; [|split].
+    - unfold keys. rewrite map_map. cbn [fst]. apply map_id.
+    - intros K HK. rewrite coeff_tabulate. apply (full_keys_range canonical) in HK. apply zin_true_iff in HK.
+      rewrite HK. reflexivity.
+    - intros K HK. rewrite coeff_tabulate. destruct (zin K (full_keys canonical)) eqn:E; [|reflexivity].
+      apply zin_true_iff, full_keys_range in E. contradiction.
+  Qed.
+
+  (* ---------------- map ---------------- *)
+  Theorem map_exact (m : mv R) :
+    (forall f, keys (map_v f m) = keys m /\ map snd (map_v f m) = map f (map snd m)
+       /\ forall K, coeff O K (map_v f m) = if zin K (keys m) then f (coeff O K m) else rO)
+    /\ (forall f, keys (map_kv f m) = keys m
+       /\ forall K, coeff O K (map_kv f m) = if zin K (keys m) then f K (coeff O K m) else rO).
+  Proof.
+    split; intros f.
+    - split; [|split].
+      + unfold map_v, keys. rewrite map_map. reflexivity.
+      + unfold map_v. rewrite !map_map. reflexivity.
+      + intros K. unfold map_v. induction m as [|[k v] r IH]; [reflexivity|].
+        cbn [map fst snd coeff keys]. fold (keys r). rewrite zin_cons, (Z.eqb_sym K k).
+        destruct (Z.eqb_spec k K) as [->|Hne]; [reflexivity | exact IH].
+    - split.
+      + unfold map_kv, keys. rewrite map_map. reflexivity.
+      + intros K. unfold map_kv. induction m as [|[k v] r IH]; [reflexivity|].
+        cbn [map fst snd coeff keys]. fold (keys r). rewrite zin_cons, (Z.eqb_sym K k).
+        destruct (Z.eqb_spec k K) as [->|Hne]; [reflexivity | exact IH].
+  Qed.
+
+  (* ---------------- filter ---------------- *)
+  Lemma filter_kv_spec p (m : mv R) : NoDup (keys m) ->
+    keys (filter_kv p m) = filter (fun k => p k (coeff O k m)) (keys m)
+    /\ forall K, coeff O K (filter_kv p m)
+                 = if zin K (keys m) && p K (coeff O K m) then coeff O K m else rO.
+  Proof.
+    unfold filter_kv. induction m as [|[k v] r IH]; intros Hnd; [split; reflexivity|].
+    cbn [keys map fst] in Hnd. inversion Hnd as [|? ? Hk Hr]; subst. destruct (IH Hr) as [IH1 IH2].
+    cbn [filter fst snd keys map coeff]. fold (keys r). rewrite Z.eqb_refl. split.
+    - assert (Hext : filter (fun k0 => p k0 (if Z.eqb k k0 then v else coeff O k0 r)) (keys r)
+                     = filter (fun k0 => p k0 (coeff O k0 r)) (keys r)).
+      { apply filter_ext_in. intros k0 Hk0. destruct (Z.eqb_spec k k0) as [->|Hne]; [contradiction | reflexivity]. }
+      rewrite Hext, <- IH1. destruct (p k v); reflexivity.
+    - intros K. rewrite zin_cons, (Z.eqb_sym K k). destruct (Z.eqb_spec k K) as [->|Hne].
+      + cbn [orb]. destruct (p K v) eqn:Ep.
+        * cbn [coeff]. rewrite Z.eqb_refl. reflexivity.
+        * rewrite IH2. apply zin_false_iff in Hk. unfold keys in *. rewrite Hk. reflexivity.
+      + cbn [orb]. destruct (p k v); [cbn [coeff]; apply Z.eqb_neq in Hne; rewrite Hne|]; apply IH2.
+  Qed.
+
+  Theorem filter_exact (m : mv R) : NoDup (keys m) ->
+    (forall p, keys (filter_v p m) = filter (fun k => p (coeff O k m)) (keys m)
+       /\ forall K, coeff O K (filter_v p m) = if zin K (keys m) && p (coeff O K m) then coeff O K m else rO)
+    /\ (forall p, keys (filter_kv p m) = filter (fun k => p k (coeff O k m)) (keys m)
+       /\ forall K, coeff O K (filter_kv p m) = if zin K (keys m) && p K (coeff O K m) then coeff O K m else rO).
+  Proof.
+    intros Hnd. split; intros p.
+    - exact (filter_kv_spec (fun _ => p) m Hnd).
+    - exact (filter_kv_spec p m Hnd).
+  Qed.
+
+  (* ---------------- grade ---------------- *)
+  Theorem grade_exact grades (m : mv R) :
+    (grade_sel O A grades m = Err EKey <-> grades_ok A grades = false)
+    /\ (forall r, grade_sel O A grades m = Ok r ->
+          (forall K, 0 <= K < L ->
+             coeff O K r = if grade_in grades K && zin K (keys m) then coeff O K m else rO)
+          /\ (wfmv A m -> NoDup (keys r)
+                          /\ forall K, In K (keys r) <-> (In K (keys m) /\ grade_in grades K = true))).
+  Proof.
+    pose proof (wf_sign_hyps A Hwf) as H.
+    exact (grade_sel_spec R rO rI radd rmul rsub ropp A (sh_keys A H) (sh_nodup A H) (sh_grade A H) grades m).
+  Qed.
+End Access.
+
